@@ -38,7 +38,7 @@ CLAIMED = {
  "C14": ("exploration", "TLC evaluates RoundTrip.tla on every value sent through solution() -> ConfigParser file -> the real fill-pdfs loading path (stand-in pdftk)",
          "Every stored line of every explored real solution (complete or partial) and of a synthetic form covering all line types, decimal places, magnitudes, text shapes and enumeration members is written like the solve command does, read back by the real fill-pdfs code with the stamped year's form definitions, and compared by TLC: numbers/booleans exactly (binary-exact floats), enumerations by member, blank as blank, text up to surrounding whitespace; stamped year = solved year = interpreting year.", "6/C14"),
  "C11": ("exploration", "TLC classifies every input text with Lex.tla (must / may / reject + denotation) and evaluates InputGate.tla on the outcome of the real InputStore and prompt path",
-         "Per input type all texts up to length 3 (thorough 4) over an adversarial alphabet, hand-picked corner cases and seeded longer texts are pushed through the real InputStore by set(), by file and through prompt_input (+ the solver's assertion); TLC requires reject => reported invalid, must => value of the declared type equal to the denotation, may => consistent and finite; supplied never missing, not supplied always missing.", "6/C11"),
+         "Per input type all texts up to length 3 (thorough 4) over an adversarial alphabet, hand-picked corner cases and seeded longer texts are pushed through the real InputStore by set(), by file and through prompt_input (+ the solver's assertion), and from a file through a one-input form solved by the real Solver with a prompt installed; TLC requires reject => reported invalid, must => value of the declared type equal to the denotation, may => consistent and finite; supplied never missing, not supplied always missing.", "6/C11"),
  "C12": ("exploration", "TLC evaluates FieldType.tla (StoreResult, rounding, blank convention, mirroring) on real TypedField.value() outcomes and on every value stored by explored returns",
          "Every (line type, decimal places) x every kind of Python value a definition may return goes through the real TypedField.value(); expected TypeError naming the line / empty value / rounded value per the specification; all values stored by explored real returns are checked for exact declared type and rounding; input-only forms' input-to-line type mirroring is checked exhaustively. Readers seeing the rounded stored value is enforced by SolverTrace.tla on every validated trace.", "6/C12"),
  "C18": ("translation_validation", "TLC evaluates PdfMap.tla on all mappings against field trees parsed from the bundled templates (XFA packets / AcroForm dictionaries)",
